@@ -13,7 +13,14 @@ THEOREMS = ['Tbox.C01.C01_exactly_once', 'Tbox.C01.C01_executed_at_most_once', '
             'Tbox.C01.C01_wakeup_served', 'Tbox.C01.C01_witness_repaired', 'Tbox.C01.C01_ids_are_code_ids',
             'Tbox.C01.C01_drain_batch_not_cancellable', 'Tbox.C01.C01_exit_timer', 'Tbox.C01.C01_exit_timer_internal_task',
             'Tbox.C01.C01_throw_keeps_batch', 'Tbox.C01.C01_throw_drops_batch_counterexample', 'Tbox.C01.C01_throw_witness_repaired',
-            'Tbox.C01.exec_inv', 'Tbox.C01.exec_wake']
+            'Tbox.C01.exec_inv', 'Tbox.C01.exec_wake', 'Tbox.C01.exec_time',
+            'Tbox.C01.C01_parity_identifies_queue', 'Tbox.C01.C01_run_picks_queue', 'Tbox.C01.C01_eintr_keeps_wakeup',
+            'Tbox.C01.C01_read_fault_harmless', 'Tbox.C01.C01_write_fault_loses_wakeup_counterexample',
+            'Tbox.C01.C01_eventfd_create_fail_counterexample', 'Tbox.C01.C01_poll_error_select_drains',
+            'Tbox.C01.C01_poll_error_epoll_continues', 'Tbox.C01.C01_exit_timer_not_early', 'Tbox.C01.C01_exit_timer_deadline',
+            'Tbox.C01.C01_exit_timer_fires', 'Tbox.C01.C01_poll_timeout_width', 'Tbox.C01.C01_poll_timeout_unclamped_counterexample',
+            'Tbox.C01.C01_cleanup_returns_idle', 'Tbox.C01.C01_cleanup_unlocked_counterexample', 'Tbox.C01.C01_nested_run_refused', 'Tbox.C01.C01_destructor_two_drains', 'Tbox.C01.C01_destructor_drops_timer_release_counterexample',
+            'Tbox.C01.C01_waterline_independent', 'Tbox.C01.C01_waterline_independent_exec']
 SOURCES = vlib.EVENT_SOURCES + vlib.BASE_SOURCES
 FLAVOUR = 'asan'
 LIBS = ['-ldl']
@@ -28,21 +35,32 @@ TRUSTED = ['model lean/TboxModel/C01/Model.lean hand-written from common_loop_ru
            'observed pass forces it) and every step must be enabled; ids, cancel results, eventfd writes and executed callables must agree',
            'std::recursive_mutex gives atomic critical sections; eventfd counter semantics (write adds, read zeroes, readable iff > 0); '
            'level-triggered epoll/select readiness',
-           'harness interposition of epoll_wait/select (parking the loop thread), pthread_mutex_lock/unlock and read/write (delay injection)',
+           'harness interposition of epoll_wait/select (parking the loop thread, injected EINTR / hard error / spurious readiness, the timeout argument '
+           'recorded as M line), eventfd() / read / write (failures chosen by the op file), pthread_mutex_lock/unlock and read/write (delay injection), '
+           'virtual steady clock (harness/vtime.h). LeakSanitizer is OFF in the check (vlib default detect_leaks=0): the record leaked by the as-found destructor '
+           '(patches/C01-05) was exhibited by running the harness by hand with leak detection on; the check sees that defect through the extra drain only',
            'C++ data-race freedom is NOT exhibited by the Lean model: ThreadSanitizer on the free-running stress (thorough tier) searches for races; '
            'the model proves the lock-discipline lemma only']
-ASSUMPTIONS = ['RunId does not wrap around (< 2^63 submissions per entry point): hypothesis NoWrap of the id theorems', 'eventfd()/epoll_create succeed',
+ASSUMPTIONS = ['RunId does not wrap around (< 2^63 submissions per entry point): hypothesis NoWrap of the id theorems',
+               'a write of 1 to a valid non-blocking eventfd whose counter is at most 1 succeeds and eventfd() succeeded: hypothesis wrLost = false of '
+               'C01_no_lost_wakeup (the failing cases are modelled, tied and shown to lose the wake-up by two counterexample theorems); '
+               'epoll_create1() succeeds (TBOX_ASSERT aborts otherwise; with NDEBUG runLoop() returns at once and the destructor drains)',
+               'exit-timer waits are below 2^62 ms and the steady clock does not wrap (uint64 ms)',
                'runNext/cancel are called from the loop thread (or the owning thread while the loop is not running), as loop.h demands',
                'exitLoop()/exitLoop(wait) likewise: loop.h does not say so, but the code writes keep_running_ and the timer heap without lock_ and '
                'does not wake the poll, so a foreign thread has to go through runInLoop([]{exitLoop();}) (which the stress mode does); '
                'a direct cross-thread exitLoop() is outside the model',
-               'no nested runLoop() from inside a callable (out of scope)',
+               'runLoop() from inside a callable/callback of the RUNNING loop is refused (patches/C01-04) and modelled; runLoop() from a callable of a '
+               'destructor or cleanup() drain (loop not running) is outside the model',
+               'Loop::cleanup() takes lock_ (patches/C01-03)',
                'exceptions of callables are caught by the loop (patches/C01-02); exceptions of timer/fd callbacks are not part of this property',
                'no other thread uses the loop object while it is being destroyed',
                'fair scheduling: a runnable loop thread eventually runs (needed to read the wake-up invariant as liveness)']
-RULE = ('(i) sequentialised schedules: scripts of callables (submit in-loop/next, cancel, exit, cross-thread submission in the middle of a batch) x '
-        'op sequences (submit from 4 threads, run once/forever, single passes, stop, re-run, destroy) on the real epoll/select loop, loop thread '
-        'parked at every poll; (ii) free-running stress with delay injection, exit + re-run of the same loop object under load. '
+RULE = ('(i) sequentialised schedules: scripts of callables (submit in-loop/next/run(), cancel, exit, exit timer with waits around 2^31/2^32 ms, '
+        'nested runLoop(), cross-thread submission in the middle of a batch, empty std::function) x '
+        'op sequences (submit/run() from 4 threads, run once/forever, single passes, stop, re-run, cleanup(), destroy, virtual clock ticks, water line, '
+        'kernel fault schedules: poll EINTR / hard error / spurious readiness, eventfd read / write / creation failure) on the real epoll/select loop, '
+        'loop thread parked at every poll, the timeout handed to the poll compared (M class); (ii) free-running stress with delay injection, exit + re-run of the same loop object under load. '
         'non-trivial = the run exercised a re-run, a submission during exit/drain/between runs, a cancel hit, or is a stress history; '
         'distinct = distinct op text')
 
@@ -56,9 +74,11 @@ def body(rng, ntmpl, k, allow_cross=True):
         if r < 0.30 and hi is not None: acts.append('i%d' % hi)
         elif r < 0.55 and hi is not None: acts.append('n%d' % hi)
         elif r < 0.72: acts.append('c%d' % rng.choice([2, 4, 6, 8, 10, 12, 3, 5, 7, 9, 11, 0, 1, 14, 16, 13]))
-        elif r < 0.80: acts.append('x')
-        elif r < 0.84: acts.append('t')
-        elif r < 0.88: acts.append('!')
+        elif r < 0.78: acts.append('x')
+        elif r < 0.82: acts.append('t' + rng.choice(['', '1', '7', '2147483647', '2147483648', '2147483649', '4294967296', '4294967297']))
+        elif r < 0.85: acts.append('!')
+        elif r < 0.87: acts.append('R')
+        elif r < 0.90 and hi is not None: acts.append('r%d' % hi)
         elif allow_cross and hi is not None: acts.append('w%d.%d' % (rng.randrange(4), hi))
     return ','.join(acts) or '-'
 
@@ -69,8 +89,8 @@ def expansion(progs):
     for k in sorted(progs, reverse=True):
         n = 1
         for a in progs[k].split(','):
-            if a in ('x', 't', '!', '-'): continue
-            if a[0] in 'in': n += size.get(int(a[1:]), 1) if int(a[1:]) != k else 100
+            if a in ('x', '!', '-', 'R', '~') or a[0] == 't': continue
+            if a[0] in 'inr': n += size.get(int(a[1:]), 1) if int(a[1:]) != k else 100
             elif a[0] == 'w': n += size.get(int(a.split('.')[1]), 1)
         size[k] = n
     return size
@@ -81,16 +101,26 @@ def gen_case(rng, nops):
     while True:
         progs = {k: body(rng, ntmpl, k) for k in range(ntmpl)}
         if rng.random() < 0.15:                      # a self-reposting runNext / runInLoop chain (100-generation bound)
-            progs[ntmpl - 1] = rng.choice(['n%d', 'i%d', 'n%d,c3']) % (ntmpl - 1)
+            progs[ntmpl - 1] = rng.choice(['n%d', 'i%d', 'n%d,c3', 'r%d']) % (ntmpl - 1)
+        elif rng.random() < 0.12:
+            progs[ntmpl - 1] = '~'                   # an empty std::function: accepted, queued, never called
         size = expansion(progs)
         if max(size.values()) <= 120: break
     ops = []
     if rng.random() < 0.5: ops.append('engine ' + rng.choice(['epoll', 'select']))
     ops += ['prog %d %s' % (k, b) for k, b in progs.items()]
     running, lt, budget, chains = False, 0, 1500, 0
+    clock = 0
+    WAITS = [1, 5, 999, 1000, 1001, 2 ** 31 - 2, 2 ** 31 - 1, 2 ** 31, 2 ** 31 + 1, 2 ** 32 - 1, 2 ** 32, 2 ** 32 + 1, 2 ** 40]
+    if rng.random() < 0.2: ops.append('wl %d %d' % (rng.choice([0, 1, 2 ** 64 - 1]), rng.choice([0, 1, 2 ** 64 - 1])))
     for _ in range(nops):
         r = rng.random()
         k = rng.randrange(ntmpl)
+        if rng.random() < 0.12:                      # kernel answers: interrupted / failing / spurious poll, failing eventfd read, write, creation
+            ops.append('fault ' + rng.choice(['pintr', 'pintr', 'perr', 'pspur', 'rd', 'rd', 'wr', 'efd', 'pok']))
+        if rng.random() < 0.06:
+            d = rng.choice([1, 4, 5, 6, 998, 1000, 2 ** 31 - 1, 2 ** 31, 2 ** 31 + 1, 2 ** 32 - 1, 2 ** 32])
+            if clock + d < 2 ** 42: ops.append('tick %d' % d); clock += d
         if size[k] >= 100:                           # reaches a self-reposting chain: 100 executions in every later drain
             chains += 1
             if chains > 3 or budget < size[k]:
@@ -103,20 +133,24 @@ def gen_case(rng, nops):
             elif r < 0.40: ops.append('next %d %d' % (rng.randrange(4), k)); budget -= size[k]
             elif r < 0.47: ops.append('cancel %d %d' % (rng.randrange(4), rng.choice([0, 2, 3, 4, 5, 6, 7, 8])))
             elif r < 0.49: ops.append('exit %d' % rng.randrange(4))
-            elif r < 0.51: ops.append('exitt %d' % rng.randrange(4))
+            elif r < 0.52: ops.append('exitt %d %d' % (rng.randrange(4), rng.choice(WAITS)))
             elif r < 0.53: ops.append('tick')
+            elif r < 0.57: ops.append('srun %d %d' % (rng.randrange(4), k)); budget -= size[k]
+            elif r < 0.61: ops.append('cleanup %d' % rng.randrange(4))
             elif r < 0.90:
                 lt = rng.randrange(4)
                 ops.append('run %s %d' % (rng.choice(['forever', 'forever', 'forever', 'once']), lt)); running = True
             elif r < 0.94: ops.append('destroy %d' % rng.randrange(4))
             else: ops.append('pass')                 # invalid while idle: bad-op on both sides
         else:
-            if r < 0.40:
+            if r < 0.34:
                 t = rng.choice([x for x in range(4) if x != lt]); ops.append('sub %d %d' % (t, k)); budget -= size[k]
+            elif r < 0.40:
+                t = rng.choice([x for x in range(4) if x != lt]); ops.append('srun %d %d' % (t, k)); budget -= size[k]
             elif r < 0.80: ops.append('pass')
             elif r < 0.86: ops.append('tick')
             elif r < 0.95: ops.append('stop'); running = False
-            else: ops.append(rng.choice(['next 0 0', 'run forever 1', 'sub %d 0' % lt, 'destroy 0']))   # invalid while running
+            else: ops.append(rng.choice(['next 0 0', 'run forever 1', 'sub %d 0' % lt, 'destroy 0', 'cleanup 0', 'srun %d 0' % lt]))   # invalid while running
         if ops[-1] == 'pass' and running and rng.random() < 0.15:
             running = None                           # unknown: a task may have exited the loop; stop generating state-dependent ops
         if running is None: break
@@ -145,7 +179,42 @@ DIRECTED = [
     # exit timer: armed from a callable, fires after the clock moved; re-armed while idle (the loop posts a task to itself); dropped by exitLoop()
     ['prog 0 -', 'prog 1 t', 'sub 1 1', 'run forever 0', 'pass', 'pass', 'tick', 'sub 2 0', 'pass', 'exitt 0', 'exitt 0', 'sub 1 0', 'run forever 0', 'pass', 'tick', 'pass'],
     ['prog 0 -', 'prog 1 t,x', 'prog 2 t,n0,t', 'sub 1 1', 'run forever 2', 'pass', 'sub 1 2', 'run forever 2', 'pass', 'tick', 'pass'],
+    # run(): from another thread while running (runInLoop), from a callable and while idle (runNext); parity finds both in cancel
+    ['prog 0 -', 'prog 1 r0,c3,c4,r0', 'sub 1 1', 'run forever 0', 'srun 2 0', 'pass', 'srun 3 0', 'pass', 'stop', 'srun 1 0', 'srun 2 1', 'cancel 0 11', 'run once 2', 'pass'],
+    # cancel of id 0, of huge / foreign ids, of ids of the other parity
+    ['prog 0 c0,c18446744073709551615,c9223372036854775808,c18446744073709551614,c1', 'sub 1 0', 'next 0 0', 'run once 0', 'pass', 'cancel 1 18446744073709551615'],
+    # an empty std::function is accepted, queued, counted, never called - in a pass batch, the exit drain and the destructor
+    ['prog 0 ~', 'prog 1 i0,n0,r0', 'sub 1 0', 'sub 1 1', 'next 0 0', 'run forever 0', 'pass', 'sub 2 0', 'stop', 'sub 3 0', 'srun 1 0', 'destroy 1'],
+    # polls interrupted by signals / failing while work is queued: the wake-up survives, on both engines
+    ['prog 0 -', 'run forever 0', 'sub 1 0', 'fault pintr', 'pass', 'fault pintr', 'pass', 'sub 2 0', 'fault perr', 'pass', 'pass', 'stop'],
+    ['engine select', 'prog 0 -', 'run forever 0', 'sub 1 0', 'fault pintr', 'pass', 'fault pintr', 'pass', 'pass', 'sub 2 0', 'pass', 'stop'],
+    # select: a hard poll error leaves the loop through the shutdown drain with run-next and cross-thread work queued
+    ['engine select', 'prog 0 -', 'prog 1 n0,i0', 'sub 1 1', 'run forever 0', 'pass', 'sub 2 0', 'fault perr', 'pass', 'run forever 1', 'sub 2 0', 'pass', 'stop'],
+    # spurious readiness (read fails with EAGAIN) and a failing read with a real wake-up pending
+    ['prog 0 -', 'run forever 0', 'fault pspur', 'fault rd', 'pass', 'sub 1 0', 'fault rd', 'pass', 'pass', 'sub 2 0', 'pass', 'stop'],
+    ['engine select', 'prog 0 -', 'run forever 0', 'fault pspur', 'fault rd', 'pass', 'sub 1 0', 'fault rd', 'pass', 'pass', 'sub 2 0', 'pass', 'stop'],
+    # a failing eventfd write: the flag is set although nothing was written - the task waits for the shutdown drain
+    ['prog 0 -', 'run forever 0', 'fault wr', 'sub 1 0', 'pass', 'sub 2 0', 'pass', 'stop'],
+    # a failed read leaves the counter positive with the flag cleared; the write of the next submission fails: still served
+    ['prog 0 -', 'prog 2 i0', 'fault rd', 'sub 3 2', 'run forever 1', 'fault wr', 'pass', 'pass', 'srun 2 0', 'pass', 'stop'],
+    # eventfd() fails when the loop starts (EMFILE): deaf loop, tasks run in the exit drain; next run is fine again
+    ['prog 0 -', 'fault efd', 'sub 1 0', 'run forever 0', 'pass', 'sub 2 0', 'pass', 'stop', 'sub 1 0', 'run forever 0', 'pass', 'stop'],
+    ['engine select', 'prog 0 -', 'fault efd', 'sub 1 0', 'run once 0', 'pass', 'sub 1 0', 'run once 0', 'pass'],
+    # exit timer on the virtual clock: waits around 2^31 and 2^32 ms, one ms before / at the deadline, both engines
+    ['prog 0 -', 'exitt 0 2147483649', 'run forever 0', 'tick 2147483647', 'pass', 'tick 1', 'pass', 'tick 1', 'pass'],
+    ['engine select', 'prog 0 -', 'exitt 0 4294967297', 'run forever 0', 'tick 4294967296', 'pass', 'tick 1', 'pass'],
+    ['prog 0 -', 'prog 1 t4294967296', 'sub 1 1', 'run forever 0', 'pass', 'tick 2147483648', 'pass', 'tick 2147483647', 'pass', 'tick 1', 'pass'],
+    ['engine select', 'prog 0 n0', 'prog 1 t1000', 'sub 1 1', 'run forever 0', 'pass', 'tick 999', 'pass', 'next 0 0', 'tick 1', 'pass'],
+    # cleanup() while idle: drains under lock_ (a submitter is blocked), loop reusable; 100-generation bound applies
+    ['prog 0 -', 'prog 1 w2.0,n0,i0', 'sub 1 1', 'next 0 0', 'cleanup 0', 'sub 1 0', 'run once 0', 'pass', 'cleanup 3'],
+    ['engine select', 'prog 0 n0', 'next 0 0', 'cleanup 1', 'cleanup 1', 'destroy 1'],
+    # runLoop() from inside a callable of the running loop: refused, the batch goes on in order
+    ['prog 0 -', 'prog 1 R,i0,n0', 'sub 1 1', 'sub 1 0', 'run forever 0', 'pass', 'sub 2 0', 'pass', 'stop'],
+    ['engine select', 'prog 0 -', 'prog 1 n0,R,x', 'prog 2 R', 'sub 1 1', 'sub 1 2', 'run forever 0', 'pass', 'sub 2 2', 'run once 1', 'pass'],
+    # extreme water lines: every notice fires, nothing else changes
+    ['wl 0 0', 'prog 0 -', 'prog 1 i0,n0', 'sub 1 1', 'next 0 1', 'run forever 0', 'pass', 'pass', 'wl 18446744073709551615 0', 'sub 1 1', 'pass', 'stop'],
     # malformed stream
+    ['fault bogus', 'wl 1', 'tick x', 'exitt 0 0', 'srun 9 0', 'cleanup 7', 'prog 1 t0', 'prog 2 r99'],
     ['engine kqueue', 'prog 99 -', 'prog 1 q', 'sub 9 0', 'pass', 'stop', 'run sometimes 0', 'cancel 0 x', 'frob', 'engine epoll', 'stress epoll 0 1 1 1 0'],
 ]
 
@@ -159,7 +228,7 @@ def gen(rng, tier):
         # cancel of a queued runNext task, cross-thread submission mid-batch, re-run), on both engines
         import itertools
         pre = ['prog 0 -', 'prog 1 i0,x', 'prog 2 n0,c3,w2.0', 'prog 3 n3']
-        alpha = ['sub 1 1', 'sub 2 2', 'sub 3 0', 'next 0 3', 'run forever 0', 'run once 0', 'pass', 'stop']
+        alpha = ['sub 1 1', 'sub 2 2', 'sub 3 0', 'next 0 3', 'run forever 0', 'run once 0', 'pass', 'stop', 'fault pintr', 'cleanup 0']
         for L in range(1, 5):
             for i, seq in enumerate(itertools.product(alpha, repeat=L)):
                 yield ['engine ' + ['epoll', 'select'][i % 2]] + pre + list(seq) + ['pass']
@@ -176,7 +245,8 @@ def gen(rng, tier):
 
 def nontrivial(ops, model_lines):
     tags = ' '.join(l for l in model_lines if l.startswith('B '))
-    keys = ('throw', 'exit-timer-fired', 'exit-timer-dropped', 'rerun', 'submit-while-exiting', 'submit-between-runs', 'submit-blocked-by-drain', 'cancel-batch-hit', 'cancel-queue-hit',
+    keys = ('poll-eintr', 'poll-error', 'poll-spurious', 'select-break', 'read-fault', 'fault-write', 'eventfd-create-failed', 'cleanup', 'nested-runLoop',
+            'run-cross', 'run-idle', 'run-in-task', 'wait>=2^31', 'throw', 'exit-timer-fired', 'exit-timer-dropped', 'rerun', 'submit-while-exiting', 'submit-between-runs', 'submit-blocked-by-drain', 'cancel-batch-hit', 'cancel-queue-hit',
             'cancel-idle-hit', 'exec-in-exit-drain', 'exec-in-destructor', 'cross-mid-batch', 'stress', 'start-with-queued-work')
     return 1 if any(k in tags for k in keys) else None
 
@@ -247,7 +317,10 @@ def tsan_stress(seed):
 
 LEVEL_TEXT = ('Lean 4 theorems over a small-step model of the loop\'s deferred-task machinery (one step = one critical section or lock-free '
               'loop-thread region; callables are scripts): for EVERY interleaving of submitter threads with loop start, passes, exit, re-run '
-              'and destruction an inductive invariant gives exactly-once, cancel soundness, FIFO per entry point, loop-thread execution, '
+              'and destruction, with every schedule of kernel answers (poll EINTR / error / spurious readiness, eventfd read failure; write and '
+              'eventfd() failure modelled and excluded by one hypothesis with counterexamples), run(), cleanup(), nested runLoop(), the exit timer on a '
+              'virtual clock and any water-line setting, an inductive invariant gives exactly-once, cancel soundness and completeness (parity), '
+              'FIFO per entry point, loop-thread execution, '
               'no lost wake-up (running and queue non-empty implies eventfd counter > 0) and drain-on-exit with the 100-generation bound; '
               'tied to the real epoll/select loop on every run by sequentialised schedules compared line by line and by free-running stress '
               'histories replayed step by step on the interleaving model')
@@ -257,4 +330,4 @@ LEVEL_NOTE = ('partial for "free of data races": the Lean model cannot exhibit a
               'running & queue non-empty -> eventfd readable; liveness needs kernel readiness + fair scheduling (assumed). '
               'trusted: Lean kernel, hand-written model + trace-acceptor tie (coverage bounded by the generator, measured)')
 TECHNIQUE = 'Lean 4 invariant proof over all interleavings of a loop-queue model + trace-acceptor correspondence (sequentialised and free-running) with the real loop'
-DESIGN_REF = 'DESIGN.md §6 C01, §7 row 1'
+DESIGN_REF = 'DESIGN.md §6 C01, §7 row 1, §10 addenda (round 7)'
